@@ -19,7 +19,7 @@
 (***************************************************************************)
 EXTENDS Naturals, Sequences, FiniteSets, TLC
 
-Mods == {"p", "p.a", "p.b", "p.s", "p.s.c", "q"}
+Mods == {"p", "p.a", "p.b", "p.s", "p.s.c", "q", "r"}    \* q, r: further top-level packages (C06: load order, side-loading)
 
 \* dotted string -> parts, for every path string a statement may mention (real modules, missing
 \* modules, and paths that run through a member of a module)
@@ -35,12 +35,13 @@ PP(s) ==
     [] s = "p.b.x" -> <<"p", "b", "x">>     \* "module path" running through member x of p.b
     [] s = "p.a.x" -> <<"p", "a", "x">>
     [] s = "p.a.y" -> <<"p", "a", "y">>
+    [] s = "p.b.y" -> <<"p", "b", "y">>
     [] s = "p.x" -> <<"p", "x">>
     [] s = "p.a.x.y" -> <<"p", "a", "x", "y">>   \* ... and one level further: the walk has to CROSS member x
     [] s = "p.b.x.y" -> <<"p", "b", "x", "y">>
     [] OTHER -> <<s>>
 
-PathStrs == Mods \cup {"zz", "p.zz", "p.b.x", "p.a.x", "p.a.y", "p.x", "p.a.x.y", "p.b.x.y"}
+PathStrs == Mods \cup {"zz", "p.zz", "p.b.x", "p.a.x", "p.a.y", "p.b.y", "p.x", "p.a.x.y", "p.b.x.y"}
 
 \* name of the pseudo member the visitor creates for `from s import *`
 StarName(s) ==
@@ -50,11 +51,13 @@ StarName(s) ==
     [] s = "p.s" -> "p/s/*"
     [] s = "p.s.c" -> "p/s/c/*"
     [] s = "q" -> "q/*"
+    [] s = "r" -> "r/*"
     [] s = "zz" -> "zz/*"
     [] s = "p.zz" -> "p/zz/*"
     [] s = "p.b.x" -> "p/b/x/*"
     [] s = "p.a.x" -> "p/a/x/*"
     [] s = "p.a.y" -> "p/a/y/*"
+    [] s = "p.b.y" -> "p/b/y/*"
     [] s = "p.x" -> "p/x/*"
     [] s = "p.a.x.y" -> "p/a/x/y/*"
     [] s = "p.b.x.y" -> "p/b/x/y/*"
@@ -66,13 +69,13 @@ ParentOf(m) ==
     [] m = "p.s.c" -> "p.s"
     [] OTHER -> ""
 Leaf(m) == LET pp == PP(m) IN pp[Len(pp)]
-IsPkg(m) == m \in {"p", "p.s", "q"}                   \* has an __init__.py
+IsPkg(m) == m \in {"p", "p.s", "q", "r"}                   \* has an __init__.py
 TopOf(m) == PP(m)[1]                                  \* name (= module string) of the top-level package
-TopPkgs == {"p", "q"}
+TopPkgs == {"p", "q", "r"}
 \* sub-modules in the order the loader installs them (finder: sorted by depth, stable)
 SubmodSeq(pkg) == IF pkg = "p" THEN <<"p.a", "p.b", "p.s", "p.s.c">> ELSE <<>>
 \* order in which the reference imports "everything" (pkgutil.walk_packages / sorted)
-WalkOrder == <<"p", "p.a", "p.b", "p.s", "p.s.c", "q">>
+WalkOrder == <<"p", "p.a", "p.b", "p.s", "p.s.c", "q", "r">>
 
 \* module string of a parts sequence ("" when it is not a module of the universe)
 ModOfParts(pp) == IF \E m \in Mods : PP(m) = pp THEN CHOOSE m \in Mods : PP(m) = pp ELSE ""
